@@ -202,6 +202,7 @@ def pinned_cases(out, prop, want, mine, crash_is_mine=False):
 
 # ---------------------------------------------------------------------------------------------------
 SIZES = {"quick": 1, "thorough": 12}
+L2_BEHAVIOURS = {"quick": 120, "thorough": 2400}      # leg L2: TLC-generated behaviours (spec/MC_Sim.tla) replayed into the code
 
 
 def check_c01(out, tier):
@@ -212,7 +213,8 @@ def check_c01(out, tier):
     run_and_judge(out, general_cases(rnd, 260 * k, "c01g"), ["C01"], mine)
     run_and_judge(out, general_cases(rnd, 60 * k, "c01or", ors=True, targets=False), ["C01"], mine)
     pinned_cases(out, "C01", ["C01"], mine)
-    from harness import suite_traces
+    from harness import suite_traces, simulate
+    simulate.replay(out, L2_BEHAVIOURS[tier], ["C01"], mine)
     suite_traces.judge_suite(out, ["C01"], mine)
     return ("graphs: seeded random general graphs (2-7 subjects, blank nodes, 1-3 classes, multi-typed nodes, mixed "
             "object kinds, 0-3 values) x inference switches x thresholds x target modes (all / classes / shape map) x "
@@ -235,6 +237,8 @@ def check_c02(out, tier):
     run_and_judge(out, wide, ["C02"], mine, label="wide class, threshold exactly k/n")
     run_and_judge(out, [gen.chain_case(rnd, "c02k%d" % i) for i in range(30 * k)], ["C02"], mine, label="removal cascades")
     pinned_cases(out, "C02", ["C02"], mine)
+    from harness import simulate
+    simulate.replay(out, L2_BEHAVIOURS[tier], ["C02"], mine)
     if tier == "thorough":
         from harness import suite_traces
         suite_traces.judge_suite(out, ["C02", "C05", "C10"], lambda c: c.startswith(("C02.", "C05.", "C10.")))
@@ -250,6 +254,8 @@ def check_c03(out, tier):
     run_and_judge(out, strict_cases(rnd, 220 * k, "c03s"), ["C03"], mine)
     run_and_judge(out, general_cases(rnd, 80 * k, "c03g", targets=False, reports=False), ["C03"], mine)
     pinned_cases(out, "C03", ["C03"], mine)
+    from harness import simulate
+    simulate.replay(out, L2_BEHAVIOURS[tier], ["C03"], mine)
     if tier == "thorough":
         from harness import suite_traces
         suite_traces.judge_suite(out, ["C03"], mine)
@@ -278,6 +284,8 @@ def check_c04(out, tier):
             c["cfg"]["examples"] = c["cfg"]["examples"] if rnd.random() < .5 else ""
     run_and_judge(out, opts, [], mine, crash_is_mine=True)
     pinned_cases(out, "C04", [], mine, crash_is_mine=True)
+    from harness import simulate
+    simulate.replay(out, L2_BEHAVIOURS[tier], [], mine, crash_is_mine=True)
     extra_c04_calls(out, rnd, 40 * k)
     return ("general graphs x all target modes x OR configurations; adversarial mixes (IRI + blank values with / "
             "without classes, thresholds that keep a shape reference but drop the plain kinds, nodes without outgoing "
